@@ -20,6 +20,10 @@ END = ['accept', 'accept', 'accept-non-empty', 'accept-or-print-query', 'abort',
 TEXTS = ['a', 'b', 'o', 'fo', 'ba', ' ', 'x', 'A', 'e', 'a b', 'o-', 'é', 'zz', '1']
 
 
+ANTH = ['1', '2', '-1', '..-2', '2..', '..-3', '1,2', '2..-2', '..', '-2..', '3', '1..2', '..1', '-3..-2', '2,..-2']
+FIELDS = ['one two three', 'alpha beta', 'solo', 'a b c d', 'x  y', ' lead in', 'tail out ', 'k:v w', 'é ü']
+
+
 def dot(b):
     return '.'.join(str(x) for x in b) if b else 'e'
 
@@ -98,6 +102,27 @@ def tmpl_kill_ring(r, lines):
     steps.append([('yank', None)])
     steps.append([r.choice([('yank', None), ('put', 'Z'), ('backward-delete-char', None)])])
     steps.append([('yank', None)])
+    return steps
+
+
+def tmpl_words_unicode(r, lines):
+    # word motions and kills over words made of non-ASCII letters and digits (\\pL\\pN are word characters)
+    q = r.choice(['héllo wörld', 'привет мир', 'naïve café x', 'a1é2 b٣c', 'über-straße fähre', '日本語 テスト ok', 'été', 'x émigré'])
+    steps = [[('change-query', q)]]
+    for _ in range(r.randint(2, 5)):
+        steps.append([(r.choice(['backward-word', 'forward-word', 'backward-kill-word', 'kill-word', 'backward-char', 'beginning-of-line', 'end-of-line',
+                                 'backward-word', 'backward-kill-word', 'kill-word']), None)])
+    steps.append([('yank', None)])
+    steps.append([r.choice([('backward-kill-word', None), ('kill-word', None), ('put', 'ö')])])
+    return steps
+
+
+def tmpl_accept_nth(r, lines):
+    # --accept-nth with ranges whose bounds fall on, before and after the ends of the record
+    steps = [[(r.choice(['down', 'up', 'last', 'first']), None)] for _ in range(r.randint(0, 2))]
+    for _ in range(r.randint(0, 3)):
+        steps.append([('toggle', None), (r.choice(['up', 'down']), None)])
+    steps.append([('accept', None)])
     return steps
 
 
@@ -220,6 +245,8 @@ def gen_session(r, tier, force=None):
     opts = dict(multi=r.choice([0, 0, 1, 2, 3, 1000]), cycle=int(r.random() < 0.35), layout=r.choice(['default', 'default', 'reverse', 'reverse-list']),
                 rows=r.choice([5, 6, 8, 12, 24]), cols=r.choice([40, 60, 80]), tac=int(r.random() < 0.2), nosort=int(r.random() < 0.15),
                 printq=int(r.random() < 0.25), exact=int(r.random() < 0.15), track=int(r.random() < 0.2), noinput=int(r.random() < 0.08))
+    opts['anth'] = r.choice(ANTH) if r.random() < 0.2 else '_'
+    opts['expect'] = r.choice(['ctrl-x', 'ctrl-x,f2', 'alt-m,ctrl-x']) if r.random() < 0.2 else '_'
     nsteps = r.randint(3, 30 if tier == 'quick' else 120)
     steps = []
     for _ in range(nsteps):
@@ -230,6 +257,12 @@ def gen_session(r, tier, force=None):
         tmpl = r.choice([tmpl_selection, tmpl_selection, tmpl_kill_ring, tmpl_kill_ring, tmpl_burst, tmpl_track, tmpl_track, tmpl_exclude_keeps, tmpl_exclude_keeps, tmpl_hidden_input])
         if force:
             tmpl = force
+        if tmpl is tmpl_accept_nth:
+            opts['anth'] = r.choice(ANTH)
+            lines = [r.choice(FIELDS) for _ in range(r.randint(1, 6))]
+            opts['noinput'], opts['tac'] = 0, 0
+        if tmpl is tmpl_words_unicode:
+            opts['noinput'] = 0
         if tmpl is tmpl_track:
             opts['track'] = 1
             if len(lines) < 5:
@@ -240,7 +273,7 @@ def gen_session(r, tier, force=None):
             opts['multi'], opts['tac'], opts['noinput'] = 1000, 0, 0
             if len(lines) < 4:
                 lines += [r.choice(WORDS) for _ in range(5)]
-        if tmpl not in (tmpl_kill_ring, tmpl_hidden_input, tmpl_kill_line) and opts['multi'] == 0:
+        if tmpl not in (tmpl_kill_ring, tmpl_hidden_input, tmpl_kill_line, tmpl_words_unicode) and opts['multi'] == 0:
             opts['multi'] = r.choice([2, 3, 1000])
         if tmpl is tmpl_exclude_keeps:
             opts['tac'] = 0
@@ -252,7 +285,7 @@ def gen_session(r, tier, force=None):
             opts['tac'], opts['nosort'] = 0, 0
             if opts['multi'] < 3:
                 opts['multi'] = r.choice([3, 1000])
-        if tmpl in (tmpl_exclude_keeps, tmpl_selection, tmpl_pick_then_all, tmpl_kill_line, tmpl_empty_accept):
+        if tmpl in (tmpl_exclude_keeps, tmpl_selection, tmpl_pick_then_all, tmpl_kill_line, tmpl_empty_accept, tmpl_accept_nth):
             # these templates pick items by their position in the unfiltered list
             opts['noinput'] = 0
             steps = tmpl(r, lines) + steps[:r.randint(0, 3)]
@@ -264,6 +297,9 @@ def gen_session(r, tier, force=None):
         opts['tac'] = 0
     if not (steps and steps[-1] and steps[-1][0][0] in END):
         steps.append([(r.choice(END), None)])
+    if opts['expect'] != '_' and r.random() < 0.6:
+        # end the session by pressing one of the --expect keys (a real key press, not a posted action)
+        steps[-1] = [('xkey', r.choice(opts['expect'].split(',')))]
     return dict(opts=opts, lines=lines, steps=steps)
 
 
@@ -288,6 +324,10 @@ def session_args(o):
         a.append('--track')
     if o.get('noinput'):
         a.append('--no-input')
+    if o.get('anth', '_') != '_':
+        a.append('--accept-nth=' + o['anth'])
+    if o.get('expect', '_') != '_':
+        a.append('--expect=' + o['expect'])
     return a
 
 
@@ -309,6 +349,11 @@ def run_session(fzf, tmp, sc, keep_screens=False):
             return None, 'did not start: ' + s.stderr().decode('utf-8', 'replace')[-300:]
         s.settle(want=lambda c: c['totalCount'] == len(lines))
         for step in sc['steps']:
+            if step[0][0] == 'xkey':
+                s.send_keys({'ctrl-x': 'C-x', 'f2': 'F2', 'alt-m': 'M-m'}[step[0][1]])
+                done_steps.append(step)
+                obs.append(None)
+                break
             if not s.post('+'.join(fzf_action(a) for a in step)):
                 hung = not os.path.exists(s.rc)
                 if hung:
@@ -356,7 +401,7 @@ def drv_sessions(tier, seed, ctx):
     r = random.Random(seed * 104729 + 7)
     # every directed template is used by at least three sessions of any run
     tm = [tmpl_selection, tmpl_kill_ring, tmpl_burst, tmpl_track, tmpl_exclude_keeps, tmpl_hidden_input, tmpl_kill_line, tmpl_empty_accept,
-          tmpl_pick_then_all]
+          tmpl_pick_then_all, tmpl_words_unicode, tmpl_accept_nth]
     scs = [gen_session(r, tier, force=tm[i % len(tm)] if i < 3 * len(tm) else None) for i in range(max(n, 3 * len(tm) + 16))]
     notes = []
 
@@ -417,7 +462,7 @@ def replay(rp, ctx):
     toks = lhs.split(' ')
     opts = dict(kv.split('=') for kv in toks[2].split(';'))
     for k in opts:
-        if k != 'layout':
+        if k not in ('layout', 'anth', 'expect'):
             opts[k] = int(opts[k])
     dec = lambda s: bytes(int(x) for x in s.split(',')).decode('utf-8', 'replace') if s != '-' else ''
     lines = [] if toks[3] == '_' else [dec(x) for x in toks[3].split('|')]
